@@ -74,11 +74,11 @@ func analyseAppFields(c *core.Ctx, f *appDBFacts) []*appField {
 						addr, val = x.Addr, x.Val
 					case *ssa.Call:
 						// atomic.StoreUint64(&appDB.f, v)
-						if n := core.CalleeName(&x.Call); strings.HasPrefix(n, "sync/atomic.Store") && len(x.Call.Args) == 2 {
-							addr, val = x.Call.Args[0], x.Call.Args[1]
-						} else if len(x.Call.Args) >= 2 && (strings.HasSuffix(n, ".Unmarshal") || strings.HasSuffix(n, ".DecodeBytes")) {
+						if n := core.CalleeName(core.NormCall(&x.Call)); strings.HasPrefix(n, "sync/atomic.Store") && len(core.NormCall(&x.Call).Args) == 2 {
+							addr, val = core.NormCall(&x.Call).Args[0], core.NormCall(&x.Call).Args[1]
+						} else if len(core.NormCall(&x.Call).Args) >= 2 && (strings.HasSuffix(n, ".Unmarshal") || strings.HasSuffix(n, ".DecodeBytes")) {
 							// decode straight into the field: tmjson.Unmarshal(result, &appDB.f)
-							addr, val = core.Unwrap(x.Call.Args[1]), x.Call.Args[0]
+							addr, val = core.Unwrap(core.NormCall(&x.Call).Args[1]), core.NormCall(&x.Call).Args[0]
 						}
 					}
 					fa, ok := addr.(*ssa.FieldAddr)
@@ -395,7 +395,7 @@ func checkVolatile(c *core.Ctx, rule string) {
 				continue
 			}
 			for _, ref := range *r.Addr.Referrers() {
-				if call, ok := ref.(*ssa.Call); ok && strings.HasPrefix(core.CalleeName(&call.Call), "sync/atomic.Store") {
+				if call, ok := ref.(*ssa.Call); ok && strings.HasPrefix(core.CalleeName(core.NormCall(&call.Call)), "sync/atomic.Store") {
 					for _, fn := range fns {
 						if r.Fn == fn || (fn != nil && c.GroupRoot(r.Fn) == fn) {
 							return true
